@@ -14,8 +14,9 @@ Definition ra (t : str) : bool := requires_argument (to_upper t).
 Section Unfold.
 Variable m : msg.
 Variable f : nat.
-Notation EL := (eval_loop go_text m (S f)).
-Notation EK := (eval_loop go_text m f).
+Variable ctx : list str.
+Local Notation EL t := (eval_loop go_text m (S f) t ctx) (only parsing).
+Local Notation EK t := (eval_loop go_text m f t ctx) (only parsing).
 
 Lemma el_nil : EL [] = Some true.
 Proof. reflexivity. Qed.
@@ -56,20 +57,22 @@ Lemma el_date sent c a rest : EL (date_token sent c :: a :: rest) =
 Proof. destruct sent, c; reflexivity. Qed.
 
 Lemma el_not rest : EL (S_ "NOT" :: rest) =
-  let n := search_key_length rest in
+  let n := search_key_length (rest ++ ctx) in
   if (length rest <? n)%nat then Some false
-  else notk (EK (firstn n rest)) (EK (skipn n rest)).
+  else notk (eval_loop go_text m f (firstn n rest) (skipn n rest ++ ctx)) (EK (skipn n rest)).
 Proof. reflexivity. Qed.
 
 Lemma el_or rest : EL (S_ "OR" :: rest) =
-  let n1 := search_key_length rest in
-  let n2 := search_key_length (skipn n1 rest) in
+  let n1 := search_key_length (rest ++ ctx) in
+  let n2 := search_key_length (skipn n1 (rest ++ ctx)) in
   if (length rest <? n1 + n2)%nat then Some false
-  else ork (EK (firstn n1 rest)) (EK (firstn n2 (skipn n1 rest))) (EK (skipn (n1 + n2) rest)).
+  else ork (eval_loop go_text m f (firstn n1 rest) (skipn n1 rest ++ ctx))
+           (eval_loop go_text m f (firstn n2 (skipn n1 rest)) (skipn (n1 + n2) rest ++ ctx))
+           (EK (skipn (n1 + n2) rest)).
 Proof. reflexivity. Qed.
 
 Lemma el_group t rest : is_group (to_upper t) = true ->
-  EL (t :: rest) = seqk (EK (parse_search_tokens (group_inner t))) (EK rest).
+  EL (t :: rest) = seqk (eval_loop go_text m f (parse_search_tokens (group_inner t)) []) (EK rest).
 Proof. intros G. cbn [eval_loop]. now rewrite G. Qed.
 End Unfold.
 
@@ -161,23 +164,6 @@ Proof.
   - revert H. apply forallb_impl. intros x Hx. apply A in Hx as (-> & -> & -> & ->). reflexivity.
 Qed.
 
-(** without a horizontal tab, SP-separated and WSP-separated parts are the same *)
-Lemma fields_by_ext_in (p q : ascii -> bool) s : (forall c, In c s -> p c = q c) ->
-  forall cur, fields_by_aux p s cur = fields_by_aux q s cur.
-Proof.
-  induction s as [|c s IH]; intros H cur; [reflexivity|]. cbn [fields_by_aux].
-  rewrite <- (H c (or_introl eq_refl)). destruct (p c); destruct cur; rewrite IH; auto; intros; apply H; now right.
-Qed.
-
-Lemma mail_date_no_tab v : existsb (Ascii.eqb tab) v = false ->
-  mail_date_by (fun c => Ascii.eqb c sp || Ascii.eqb c tab) v = mail_date_by (fun c => Ascii.eqb c sp) v.
-Proof.
-  intros H. unfold mail_date_by, fields_by. rewrite (fields_by_ext_in _ (fun c => Ascii.eqb c sp) v); [reflexivity|].
-  intros c Hc. destruct (Ascii.eqb_spec c tab) as [->|_]; [|now rewrite orb_false_r].
-  exfalso. assert (X : existsb (Ascii.eqb tab) v = true) by (apply existsb_exists; exists tab; split; [exact Hc | apply Ascii.eqb_refl]).
-  congruence.
-Qed.
-
 Definition atomic (k : key) : Prop := match k with KNot _ | KOr _ _ | KGroup _ => False | _ => True end.
 
 Section Step.
@@ -188,9 +174,10 @@ Notation maxuid := (last_uid mb).
 Variables (i : Z) (sm : smsg).
 Hypothesis Hin : In (i, sm) (numbered mb).
 Hypothesis Hmb : mb_ok mb = true.
+Variable ctx : list str.
 Notation m := (to_msg mb (i, sm)).
-Notation EL := (eval_loop go_text m (S f)).
-Notation EK := (eval_loop go_text m f).
+Local Notation EL t := (eval_loop go_text m (S f) t ctx) (only parsing).
+Local Notation EK t := (eval_loop go_text m f t ctx) (only parsing).
 Notation SP := (spec_eval nseq maxuid).
 
 Lemma flag_step w : has_flag_go (m_flags m) w = has_flag sm w.
@@ -200,22 +187,15 @@ Proof.
   rewrite forallb_forall in Hf. apply Hf. eapply in_numbered. exact Hin.
 Qed.
 
-Lemma sent_date_step c d : date_ok d = true -> sent_class mb = None ->
+Lemma sent_date_step c d : date_ok d = true ->
   matches_sent_date m (print_date d) c = spec_text_key (KDate true c d) sm.
 Proof.
-  intros W C. unfold matches_sent_date. cbn [spec_text_key to_msg to_msg_in m_text]. unfold sent_date.
+  intros W. unfold matches_sent_date. cbn [spec_text_key to_msg to_msg_in m_text]. unfold sent_date, rfc5322_date.
   rewrite header_field_values_spec.
-  assert (NT : date_has_tab sm = false).
-  { unfold sent_class in C. destruct (existsb date_has_tab mb) eqn:E; [discriminate|].
-    destruct (date_has_tab sm) eqn:T; [|reflexivity]. exfalso.
-    assert (X : existsb date_has_tab mb = true) by (apply existsb_exists; exists sm; split; [eapply in_numbered; exact Hin | exact T]).
-    congruence. }
-  unfold date_has_tab in NT.
   destruct (field_values (s_text sm) (S_ "Date")) as [|v vs]; [reflexivity|].
-  rewrite (parse_print_date d W). unfold rfc5322_date, mail_date.
-  rewrite (mail_date_no_tab _ NT).
-  destruct (trim_space v) as [|x dh] eqn:T; [reflexivity|].
-  destruct (mail_date_by _ (x :: dh)); [|reflexivity]. destruct (sdate_val d); reflexivity.
+  rewrite (parse_print_date d W).
+  destruct (trim_space (wsp_to_sp v)) as [|x dh] eqn:T; [reflexivity|].
+  destruct (mail_date (x :: dh)); [|reflexivity]. destruct (sdate_val d); reflexivity.
 Qed.
 
 (** keys other than NOT / OR *)
@@ -252,7 +232,7 @@ Proof.
         repeat (apply andb_true_iff in P as [P ?]).
         repeat match goal with X : negb _ = true |- _ => apply negb_true_iff in X end. assumption. }
     rewrite U. destruct sent.
-    + now rewrite (sent_date_step c d W C).
+    + now rewrite (sent_date_step c d W).
     + unfold matches_date. rewrite (parse_print_date d W). cbn [spec_eval to_msg to_msg_in m_idate].
       destruct (sdate_val d); reflexivity.
 Qed.
